@@ -11,6 +11,8 @@ mod c05;
 mod c07;
 mod c08;
 mod c14;
+mod c15;
+mod c16;
 mod c17;
 mod c18;
 mod c19;
@@ -35,6 +37,8 @@ fn gen(prop: &str, seed: u64, n: usize, tier: &str) -> Option<Vec<Case>> {
         "C07" => c07::gen(seed, n, tier),
         "C08" => c08::gen(seed, n, tier),
         "C14" => c14::gen(seed, n, tier),
+        "C15" => c15::gen(seed, n, tier),
+        "C16" => c16::gen(seed, n, tier),
         "C17" => c17::gen(seed, n, tier),
         "C18" => c18::gen(seed, n, tier),
         "C19" => c19::gen(seed, n, tier),
@@ -51,6 +55,8 @@ fn run(prop: &str, c: &Case) -> Option<Case> {
         "C07" => c07::run(c),
         "C08" => c08::run(c),
         "C14" => c14::run(c),
+        "C15" => c15::run(c),
+        "C16" => c16::run(c),
         "C17" => c17::run(c),
         "C18" => c18::run(c),
         "C19" => c19::run(c),
@@ -63,6 +69,8 @@ fn judge(prop: &str, c: &Case) -> Vec<String> {
         "C02" => c02::judge(c, &c.outs),
         "C03" => c03::judge(c, &c.outs),
         "C14" => c14::judge(c, &c.outs),
+        "C15" => c15::judge(c, &c.outs),
+        "C16" => c16::judge(c, &c.outs),
         "C19" => c19::judge(c, &c.outs),
         "C20" => c20::judge(c, &c.outs),
         _ => vec![],
